@@ -40,6 +40,7 @@ type tblock struct {
 	msg    *wire.MsgBlock
 	hash   bitcoin.Hash32
 	txs    []string
+	boot   bool // part of the peer's chain before the node started
 }
 
 type tree struct {
@@ -251,6 +252,7 @@ type World struct {
 	batching   bool
 	bursted    bool
 	enabledAtKey []string
+	offBestAt  map[string]int64 // block name -> when the peer's best chain dropped it (first time)
 	drainTimeouts bool // the last drain only converged (if at all) after letting request time-outs fire
 	slack      int64 // timing slack (ns) the oracles grant when a scheduling deviation delayed a thread
 	devSite    string // where the deviation of this execution was applied (thread + park site)
@@ -329,6 +331,7 @@ func NewWorld(cfg WorldCfg) *World {
 	w.Best = []string{"g"}
 	for i := 0; i < cfg.InitialChain; i++ {
 		b := w.Tree.mine(w.Best[len(w.Best)-1], nil, nil)
+		b.boot = true
 		w.Best = append(w.Best, b.name)
 	}
 	// extra trunk blocks the peer has mined but not made part of its announced best chain yet
@@ -712,6 +715,7 @@ func (w *World) Reorg(d, n int) bool {
 		return false
 	}
 	w.Abandoned = append([]string(nil), w.Best...)
+	w.noteOffBest(w.Best[len(w.Best)-d:])
 	w.Best = append([]string(nil), w.Best[:len(w.Best)-d]...)
 	for i := 0; i < n; i++ {
 		b := w.Tree.mine(w.Best[len(w.Best)-1], nil, nil)
@@ -960,6 +964,11 @@ func (w *World) Back(k int) bool {
 	}
 	cur := w.Best
 	target := len(cur) + k
+	for i, n := range cur {
+		if i >= len(w.Abandoned) || w.Abandoned[i] != n {
+			w.noteOffBest([]string{n})
+		}
+	}
 	w.Best = append([]string(nil), w.Abandoned...)
 	w.Abandoned = cur
 	for len(w.Best) < target {
@@ -985,4 +994,15 @@ func (w *World) mineable(n string, chosen []string) bool {
 		}
 	}
 	return true
+}
+
+func (w *World) noteOffBest(names []string) {
+	if w.offBestAt == nil {
+		w.offBestAt = map[string]int64{}
+	}
+	for _, n := range names {
+		if _, ok := w.offBestAt[n]; !ok {
+			w.offBestAt[n] = w.S.Now
+		}
+	}
 }
